@@ -39,6 +39,7 @@ type Program struct {
 	Inits  map[*ssa.Function]bool // package initialisers and what only they reach
 	Overlay map[string][]byte
 	Drifted []string // reference functions dropped because they no longer type-check
+	specIndex map[string]bool
 }
 
 func repoEnv() []string {
@@ -290,6 +291,19 @@ func LoadProgram(repo, work string, overlay map[string][]byte) (*Program, error)
 	p.collectFuncs()
 	p.computeReachability()
 	return p, nil
+}
+
+// hasSpec: a reference implementation exists for the repository function with this key.
+func (p *Program) hasSpec(key string) bool {
+	if p.specIndex == nil {
+		p.specIndex = map[string]bool{}
+		for _, sf := range p.SpecFuncs {
+			if sf.Parent() == nil && sf.Synthetic == "" {
+				p.specIndex[strings.Replace(funcKey(sf), specPrefix, "", 1)] = true
+			}
+		}
+	}
+	return p.specIndex[key]
 }
 
 // isSpec: the function (or its enclosing function) is defined in a spec overlay file.
